@@ -578,3 +578,32 @@ Example C15_incoming_streams_map_trace_example :
   [IGetOrOpen 0; IAccept 7; IDelete 0; IGetOrOpen 4].
 Proof. vm_compute. reflexivity. Qed.
 Print Assumptions C15_incoming_streams_map_trace_example.
+
+(** The same for the outgoing maps: [proj_out uni (init_sm client mb mu) ops []] is the projection
+    of the top-level history onto the outgoing map of type [uni] since the last ResetFor0RTT (with
+    the map's own results and frames; a transport-parameter op contributes one SetMaxStream to each
+    map). At the newStreamsMap level, for every API history: the IDs handed out by OpenStream /
+    OpenStreamSync are first, first+4, ... each within the peer's limit, nextStream counts them, the
+    STREAMS_BLOCKED frames name strictly increasing limits and the last one names the current limit
+    iff blockedSent, and the callers served after waiting are a subsequence of the arrivals. *)
+Theorem C15_outgoing_streams_map_trace : forall client mb mu ops s outs (uni : bool),
+  0 <= mb -> 0 <= mu -> Forall top_ok ops ->
+  trun (init_sm client mb mu) ops = (s, outs) ->
+  let P := proj_out uni (init_sm client mb mu) ops [] in
+  let oops := map fst P in let oouts := map snd P in
+  orun (init_out uni client) oops = (s_out s uni, oouts) /\
+  opened oops oouts = ids_from (first_outgoing uni client) (length (opened oops oouts)) /\
+  Forall (fun id => id <= o_max (s_out s uni)) (opened oops oouts) /\
+  o_next (s_out s uni) = first_outgoing uni client + 4 * zlen (opened oops oouts) /\
+  (exists B, bchain uni (-1) (frames_of oouts) B /\
+     (if o_blockedSent (s_out s uni) then B = out_limit (s_out s uni) else B < out_limit (s_out s uni))) /\
+  subseq (served oops oouts) (arrivals oops oouts).
+Proof. exact sm_outgoing_trace. Qed.
+Print Assumptions C15_outgoing_streams_map_trace.
+
+Example C15_outgoing_streams_map_trace_example :
+  map fst (proj_out true (init_sm true 1 1)
+             [OTransportParams 1 2 false; OOpen true; OOpen false; OReset; OUseReset; OMaxStreams true 1; OOpen true] []) =
+  [OpSetMax 2; OpOpen].
+Proof. vm_compute. reflexivity. Qed.
+Print Assumptions C15_outgoing_streams_map_trace_example.
